@@ -18,6 +18,7 @@ type ReplayOutcome struct {
 	Outcome string   // ok | assert:<label> | panic:<msg> | known:<id> | stop:assume | error:<..>
 	Log     []string // native event log
 	Failed  []string
+	Races   []string // data races the Go race detector reported between two accesses made by code under test
 }
 
 func (e *Engine) PkgOfHarness(h string) (name, rel string) {
@@ -99,7 +100,48 @@ var replayLine = regexp.MustCompile(`^VERIF-REPLAY (\d+) outcome=(\S+) log=(.*) 
 
 // NativeReplay runs the given tapes (all of one package) against the real build with `go test -overlay`.
 func (e *Engine) NativeReplay(pkgName, pkgRel string, tapePaths []string, workDir string) ([]ReplayOutcome, string, error) {
-	res, raw, err := e.nativeReplayOnce(pkgName, pkgRel, tapePaths, workDir)
+	// tapes that predict a data race are replayed one by one under the Go race detector
+	var plain []string
+	var plainIdx []int
+	all := make([]ReplayOutcome, len(tapePaths))
+	var raws []string
+	for i, p := range tapePaths {
+		t, terr := ReadTape(p)
+		if terr == nil && t.VKind == "race" {
+			r1, raw1, _ := e.nativeReplayOnce(pkgName, pkgRel, []string{p}, workDir, true, 0)
+			all[i] = r1[0]
+			all[i].Races = raceReports(raw1, e.RepoDir)
+			raws = append(raws, raw1)
+			continue
+		}
+		if terr == nil && t.VKind == "panic" && strings.HasPrefix(t.Label, "DEADLOCK") {
+			// a predicted deadlock hangs the test binary: replayed alone under a short deadline, the crash confirms it
+			r1, raw1, err1 := e.nativeReplayOnce(pkgName, pkgRel, []string{p}, workDir, false, 30)
+			all[i] = r1[0]
+			if err1 != nil && strings.HasPrefix(r1[0].Outcome, "error:no-output") {
+				if l := crashLine(raw1); l != "" {
+					all[i].Outcome = "panic:test-process-crashed:" + l
+				}
+			}
+			raws = append(raws, raw1)
+			continue
+		}
+		plain = append(plain, p)
+		plainIdx = append(plainIdx, i)
+	}
+	if len(plain) < len(tapePaths) {
+		if len(plain) == 0 {
+			return all, strings.Join(raws, "\n"), nil
+		}
+		r, raw, err := e.NativeReplay(pkgName, pkgRel, plain, workDir)
+		for k, i := range plainIdx {
+			if k < len(r) {
+				all[i] = r[k]
+			}
+		}
+		return all, raw + strings.Join(raws, "\n"), err
+	}
+	res, raw, err := e.nativeReplayOnce(pkgName, pkgRel, tapePaths, workDir, false, 0)
 	if err == nil || len(tapePaths) == 1 {
 		if err != nil && len(res) == 1 && strings.HasPrefix(res[0].Outcome, "error:no-output") {
 			if l := crashLine(raw); l != "" {
@@ -113,7 +155,7 @@ func (e *Engine) NativeReplay(pkgName, pkgRel string, tapePaths []string, workDi
 		if !strings.HasPrefix(res[i].Outcome, "error:no-output") {
 			continue
 		}
-		r1, raw1, err1 := e.nativeReplayOnce(pkgName, pkgRel, []string{tapePaths[i]}, workDir)
+		r1, raw1, err1 := e.nativeReplayOnce(pkgName, pkgRel, []string{tapePaths[i]}, workDir, false, 0)
 		res[i] = r1[0]
 		if err1 != nil && strings.HasPrefix(r1[0].Outcome, "error:no-output") {
 			if l := crashLine(raw1); l != "" {
@@ -134,7 +176,52 @@ func crashLine(raw string) string {
 	return ""
 }
 
-func (e *Engine) nativeReplayOnce(pkgName, pkgRel string, tapePaths []string, workDir string) ([]ReplayOutcome, string, error) {
+// raceReports extracts from the output of a -race run the reports whose two accesses are both made by code under
+// test (innermost frame inside the repository that is not a harness file).
+func raceReports(raw, repoDir string) []string {
+	var out []string
+	for _, blk := range strings.Split(raw, "WARNING: DATA RACE")[1:] {
+		if i := strings.Index(blk, "=================="); i >= 0 {
+			blk = blk[:i]
+		}
+		var sites []string
+		harness := false
+		for _, sec := range regexp.MustCompile(`(?m)^(Write at|Read at|Previous write at|Previous read at|Atomic [a-z ]+at)`).Split(blk, -1)[1:] {
+			if i := strings.Index(sec, "\n\n"); i >= 0 {
+				sec = sec[:i]
+			}
+			site := ""
+			lines := strings.Split(sec, "\n")
+			for j := 1; j+1 < len(lines); j += 2 {
+				fn, file := strings.TrimSpace(lines[j]), strings.TrimSpace(lines[j+1])
+				if !strings.HasPrefix(file, repoDir+"/") {
+					continue
+				}
+				if k := strings.Index(file, " "); k >= 0 {
+					file = file[:k]
+				}
+				if strings.Contains(filepath.Base(file), "zz_") {
+					harness = true
+				}
+				site = fn + " " + strings.TrimPrefix(file, repoDir+"/")
+				break
+			}
+			if site == "" {
+				harness = true
+			}
+			sites = append(sites, site)
+		}
+		if !harness && len(sites) >= 2 {
+			out = append(out, strings.Join(sites[:2], " || "))
+		}
+	}
+	return out
+}
+
+func (e *Engine) nativeReplayOnce(pkgName, pkgRel string, tapePaths []string, workDir string, race bool, timeoutS int) ([]ReplayOutcome, string, error) {
+	if timeoutS == 0 {
+		timeoutS = 120 + 10*len(tapePaths)
+	}
 	if err := os.MkdirAll(workDir, 0o755); err != nil {
 		return nil, "", err
 	}
@@ -171,7 +258,13 @@ func (e *Engine) nativeReplayOnce(pkgName, pkgRel string, tapePaths []string, wo
 	if err := os.WriteFile(ovf, ov, 0o644); err != nil {
 		return nil, "", err
 	}
-	cmd := exec.Command("go", "test", "-tags", "verif", "-vet=off", "-count=1", "-run", "^TestVerifReplay$", "-v", "-timeout", "20m", "-overlay", ovf, pkgRel)
+	args := []string{"test", "-tags", "verif", "-vet=off", "-count=1", "-run", "^TestVerifReplay$", "-v", "-timeout", fmt.Sprintf("%ds", timeoutS), "-overlay", ovf}
+	// (a tape takes well under a second natively, a few seconds when the harness lets timers run; a predicted deadlock
+	// makes the test binary hang, which the short deadline turns into the crash that confirms it)
+	if race {
+		args = append(args, "-race")
+	}
+	cmd := exec.Command("go", append(args, pkgRel)...)
 	cmd.Dir = e.RepoDir
 	cmd.Env = append(os.Environ(), "GOFLAGS=-mod=mod", "GOPROXY=off", "GOSUMDB=off", "GOTOOLCHAIN=local", "VERIF_TAPES="+strings.Join(tapePaths, ":"))
 	var out bytes.Buffer
@@ -229,6 +322,9 @@ func Confirms(t Tape, o ReplayOutcome) bool {
 	case "violation":
 		if t.VKind == "panic" {
 			return strings.HasPrefix(o.Outcome, "panic:")
+		}
+		if t.VKind == "race" {
+			return len(o.Races) > 0
 		}
 		for _, f := range o.Failed {
 			if f == t.Label {
